@@ -19,6 +19,9 @@ pub enum Op {
     AddNext,
     /// continue on g.clone()
     CloneSwap,
+    /// continue on a graph that has lived before (own group, unread counter, allocator position) and
+    /// then took everything over by `clone_from(&g)`
+    CloneFromSwap,
     /// continue on load(save(g))
     ReloadSwap,
     /// merge the fixed right tree no. k at `left`
@@ -40,6 +43,7 @@ impl Op {
             Op::NextId => "next_id()".into(),
             Op::AddNext => "add(next_id())".into(),
             Op::CloneSwap => "g=g.clone()".into(),
+            Op::CloneFromSwap => "used.clone_from(&g); g=used".into(),
             Op::ReloadSwap => "g=load(save(g))".into(),
             Op::Merge(k, l) => format!("merge(H{k},left={l})"),
             Op::MergeFail(k, l) => format!("merge(H{k}+stray,left={l})=Err"),
@@ -144,7 +148,7 @@ impl Model {
             Op::Bind(a, b, l) => self.bind_enabled(*a, *b, *l),
             Op::Put(v, _) | Op::Data(v) => self.present.contains_key(v),
             Op::NextId | Op::AddNext => self.has_free_id(impl_pos),
-            Op::CloneSwap | Op::ReloadSwap => true,
+            Op::CloneSwap | Op::CloneFromSwap | Op::ReloadSwap => true,
             Op::Merge(k, left) | Op::MergeFail(k, left) => self.merge_enabled(&fixed_tree(*k), *left, impl_pos),
         }
     }
@@ -424,7 +428,7 @@ impl Model {
                     }
                 }
             }
-            Op::CloneSwap => {}
+            Op::CloneSwap | Op::CloneFromSwap => {}
             Op::ReloadSwap => {
                 self.pos = 0;
                 self.returned.clear();
